@@ -23,6 +23,8 @@ use crate::stgen::ast::*;
 use crate::stgen::print::{print_program, PrintOpts};
 use crate::stgen::{generate, GenConfig};
 
+#[path = "c01/context.rs"]
+pub mod context;
 #[path = "c01/ext.rs"]
 pub mod ext;
 #[path = "c01/handmade.rs"]
@@ -110,6 +112,13 @@ pub struct Case {
     pub mutations: Vec<mutate::Applied>,
     #[serde(default)]
     pub trace: XTrace,
+    /// Context-aware mutation: where it was applied (None: legacy token-level mutation).
+    #[serde(default)]
+    pub site: Option<mutate::SiteInfo>,
+    /// Settable inputs (instance | "" for globals | "%" for direct addresses, name, type):
+    /// the alternative traces that try to reach a mutated site are synthesised from these.
+    #[serde(default)]
+    pub inputs: Vec<(String, String, String)>,
     #[serde(default)]
     pub features: Vec<String>,
     #[serde(default)]
@@ -125,6 +134,9 @@ fn gen_config(d: &Dials) -> GenConfig {
     cfg.max_stmts = 30;
     cfg.max_cycles = 6;
     cfg.features.pow = true;
+    // paired extremes in expressions and boundary bursts in the trace (C02's dials)
+    cfg.boundary_pairs = true;
+    cfg.trace_boundary_bursts = true;
     // shapes of C01's own findings: generated as soon as the finding is no longer open
     cfg.features.case_unsigned = !d.is_open("F3-");
     cfg.features.case_enum = !d.is_open("F3-");
@@ -299,9 +311,11 @@ pub fn materialize(mut c: Case) -> Case {
             }
         }
     }
-    // ---- extension (3 cases in 4)
+    // ---- extension (3 cases in 4; mutated programs: 3 in 8 - pure stgen programs are rich in
+    // IF / ELSIF / CASE / loop contexts and fault later, so more of them is executed)
     let mut xr_empty = false;
-    let x = if c.ext_tape.data.is_empty() {
+    let skip_ext = c.mode == "mutated" && c.mut_tape.data.last().map(|w| w % 2 == 0).unwrap_or(false);
+    let x = if c.ext_tape.data.is_empty() || skip_ext {
         xr_empty = true;
         ext::ExtOut::default()
     } else {
@@ -364,13 +378,53 @@ pub fn materialize(mut c: Case) -> Case {
             dt_ns: ci.dt_ns,
         });
     }
+    // ---- settable inputs (for the alternative traces)
+    if let Some(m) = g.program.pou("Main") {
+        for v in &m.vars {
+            if let (Ty::Elem(e), Role::Data, VarKind::Local, false) = (&v.ty, v.role, v.kind, v.constant) {
+                c.inputs.push(("Main".into(), v.name.clone(), e.name().to_string()));
+            }
+        }
+    }
+    for gv in &g.program.globals {
+        if let Ty::Elem(e) = &gv.ty {
+            c.inputs.push((String::new(), gv.name.clone(), e.name().to_string()));
+        }
+    }
+    for (n, t) in &x.inputs {
+        c.inputs.push(("Main".into(), n.clone(), t.name().to_string()));
+    }
+    for di in &x.direct_inputs {
+        c.inputs.push(("%".into(), di.address.clone(), di.cell.to_string()));
+    }
     // ---- mutation
     if c.mode == "mutated" {
         c.base_source = source.clone();
         let mut mr = Reader::new(&c.mut_tape);
-        let (m, applied) = mutate::mutate(&source, &mut mr);
-        source = m;
-        c.mutations = applied;
+        // 3 of 4: context-aware (context first, site second); else the token-level mutator
+        // mutated programs run at least 4 cycles: a perturbed ELSIF / ELSE / later branch is
+        // often reached only after the first cycles changed the state
+        while trace.len() < 4 {
+            trace.push(CycleIn { writes: vec![], dt_ns: 1_000_000 });
+        }
+        let mut done = false;
+        if mr.chance(3, 4) {
+            // executed-statement log of the UNMUTATED program under this trace: sites it
+            // executes are preferred (the text before a site is not changed by its mutation)
+            let mut base_log = oracle::StmtLog::new();
+            let _ = catch(|| oracle::run_traced(&source, &trace, &mut base_log));
+            if let Some((m, a, site)) = mutate::mutate_in_context(&source, &mut mr, &base_log) {
+                source = m;
+                c.mutations = vec![a];
+                c.site = Some(site);
+                done = true;
+            }
+        }
+        if !done {
+            let (m, applied) = mutate::mutate(&source, &mut mr);
+            source = m;
+            c.mutations = applied;
+        }
     }
     c.source = source;
     c.trace = trace;
@@ -389,12 +443,18 @@ fn long_tape(min_len: usize, max_len: usize) -> impl Strategy<Value = Tape> {
     proptest::collection::vec(word, min_len..max_len).prop_map(|data| Tape { data })
 }
 
+/// Mutation tape: uniform words (the engine's word mix is deliberately heavy on 0 and
+/// u32::MAX, which made the context draw land on the first / last context) and never empty.
+fn uniform_tape(min_len: usize, max_len: usize) -> impl Strategy<Value = Tape> {
+    proptest::collection::vec(any::<u32>(), min_len..max_len).prop_map(|data| Tape { data })
+}
+
 pub fn case_strategy(mode: &'static str) -> impl Strategy<Value = Case> {
     (
         tape_strategy(700),
         tape_strategy(80),
         prop_oneof![3 => long_tape(900, 2600), 1 => Just(Tape { data: vec![] })],
-        tape_strategy(24),
+        uniform_tape(12, 40),
         0u8..8,
     )
         .prop_map(move |(p, t, x, m, bits)| {
@@ -416,6 +476,8 @@ pub fn case_strategy(mode: &'static str) -> impl Strategy<Value = Case> {
                 base_source: String::new(),
                 mutations: vec![],
                 trace: vec![],
+                site: None,
+                inputs: vec![],
                 features: vec![],
                 excluded: vec![],
             })
@@ -510,6 +572,9 @@ pub fn check_case(case: &Case, probe: &mut Probe) -> Result<(), String> {
     for m in &c.mutations {
         probe.label(format!("mutation={}", m.kind));
     }
+    if let Some(site) = &c.site {
+        probe.label(format!("site={}", site.ctx));
+    }
     let rep = oracle::run(&c.source, &c.trace);
     if mode == "base" {
         BASE_TOTAL.fetch_add(1, Ordering::Relaxed);
@@ -556,11 +621,56 @@ pub fn check_case(case: &Case, probe: &mut Probe) -> Result<(), String> {
             probe.sample(json!({"mode": mode, "fault": rep.fault, "cycles": rep.ran_cycles, "mutations": c.mutations, "source": c.source}));
         }
     }
+    // ---- context-aware mutation: was the site reached? if not, try the alternative traces
+    let mut rep = rep;
+    let mut used_trace: XTrace = c.trace.clone();
+    if let (Some(site), true, true) = (&c.site, rep.failure.is_none(), mode == "mutated") {
+        probe.label(format!("site_accepted={}", site.ctx));
+        // A site the UNMUTATED program executed under this trace is reached by the mutated one
+        // too (the text and the behaviour before the site are unchanged): no extra run.
+        let mut hit = site.executed_in_base;
+        let mut by = "generated(coverage_guided)";
+        if !hit {
+            let mut log = oracle::StmtLog::new();
+            let _ = catch(|| oracle::run_traced(&c.source, &c.trace, &mut log));
+            hit = site_reached(site, &log, &c.source);
+            by = "generated";
+        }
+        if !hit {
+            for (name, t) in alt_traces(&c.inputs) {
+                let mut log = oracle::StmtLog::new();
+                let r2 = catch(|| oracle::run_traced(&c.source, &t, &mut log)).ok();
+                let failed = r2.as_ref().map(|r| r.failure.is_some()).unwrap_or(true);
+                if failed {
+                    // a failure seen under the hook counts only when the hook-free run confirms it
+                    let r3 = oracle::run(&c.source, &t);
+                    if r3.failure.is_some() {
+                        rep = r3;
+                        used_trace = t;
+                        hit = true;
+                        by = name;
+                        break;
+                    }
+                }
+                if site_reached(site, &log, &c.source) {
+                    hit = true;
+                    by = name;
+                    break;
+                }
+            }
+        }
+        if hit {
+            probe.label(format!("site_reached={}", site.ctx));
+            probe.label(format!("site_reached_by={by}"));
+        } else {
+            probe.label(format!("site_unreached={}", site.ctx));
+        }
+    }
     let Some(f) = &rep.failure else {
         return Ok(());
     };
     // ---- localise and match against the open findings
-    let loc = catch(|| oracle::locate_fault(&c.source, &c.trace)).ok().flatten();
+    let loc = catch(|| oracle::locate_fault(&c.source, &used_trace)).ok().flatten();
     let stmt = loc.and_then(|(s, e)| c.source.get(s as usize..(e as usize).min(c.source.len())));
     let key = sig::match_known(&sig::SigInput {
         failure: f,
@@ -589,9 +699,96 @@ pub fn check_case(case: &Case, probe: &mut Probe) -> Result<(), String> {
         f.kind,
         stmt.map(|s| s.lines().take(6).collect::<Vec<_>>().join("\n")).unwrap_or_else(|| "<not located>".into()),
         if muts.is_empty() { "none".to_string() } else { muts.join("\n") },
-        trace_text(&c.trace),
+        trace_text(&used_trace),
         c.source
     ))
+}
+
+/// Was the mutated site evaluated in some cycle? (statement granularity from the executed-
+/// statement log; for an ELSIF condition: the IF was executed and no statement of an earlier
+/// branch followed it). For the evidence labels only.
+fn site_reached(site: &mutate::SiteInfo, log: &oracle::StmtLog, source: &str) -> bool {
+    let pou_end = (site.pou_end as i64 + site.delta.max(0) + 1) as u32;
+    let pou_start = site.pou_start as u32;
+    match site.ctx.as_str() {
+        "initialiser" => {
+            // PROGRAM-level declarations are initialised when the runtime is built
+            if source.get(site.pou_start..).map(|t| t.trim_start().to_ascii_uppercase().starts_with("PROGRAM")).unwrap_or(false) {
+                return true;
+            }
+            log.iter().flatten().any(|(s, _)| *s >= pou_start && *s < pou_end)
+        }
+        "elsif_cond" => {
+            let Some((is, ie)) = site.if_range else { return false };
+            let (is, ie) = (is as u32, (ie as i64 + site.delta.max(0)) as u32);
+            let slot = site.slot_start as u32;
+            for cyc in log {
+                for (i, (s, _)) in cyc.iter().enumerate() {
+                    if *s != is {
+                        continue;
+                    }
+                    match cyc.get(i + 1) {
+                        Some((n, _)) if *n > is && *n < ie => {
+                            if *n > slot {
+                                return true;
+                            }
+                        }
+                        _ => return true,
+                    }
+                }
+            }
+            false
+        }
+        _ => log.iter().flatten().any(|(s, _)| *s as usize == site.stmt_start),
+    }
+}
+
+/// Alternative traces (4 cycles each) that try to falsify earlier conditions: every settable
+/// input is driven to the same simple value in every cycle.
+fn alt_traces(inputs: &[(String, String, String)]) -> Vec<(&'static str, XTrace)> {
+    let mk = |f: &dyn Fn(&str, usize) -> Option<u64>| -> XTrace {
+        (0..4)
+            .map(|_| {
+                let mut writes = Vec::new();
+                for (k, (inst, name, ty)) in inputs.iter().enumerate() {
+                    let Some(bits) = f(ty, k) else { continue };
+                    let value = Scalar { ty: ty.clone(), bits };
+                    if inst == "%" {
+                        writes.push(Write::Direct { address: name.clone(), value });
+                    } else {
+                        writes.push(Write::Var { instance: inst.clone(), var: name.clone(), value });
+                    }
+                }
+                CycleIn { writes, dt_ns: 1_000_000 }
+            })
+            .collect()
+    };
+    let is_num = |t: &str| !matches!(t, "BOOL" | "REAL" | "LREAL");
+    vec![
+        ("all_false_zero", mk(&|t, _| match t {
+            "REAL" => Some(0f32.to_bits() as u64),
+            "LREAL" => Some(0f64.to_bits()),
+            _ => Some(0),
+        })),
+        ("all_true_one", mk(&|t, _| match t {
+            "REAL" => Some(1f32.to_bits() as u64),
+            "LREAL" => Some(1f64.to_bits()),
+            _ => Some(1),
+        })),
+        ("false_minus_one", mk(&|t, _| match t {
+            "BOOL" => Some(0),
+            "REAL" => Some((-1f32).to_bits() as u64),
+            "LREAL" => Some((-1f64).to_bits()),
+            _ => Some(u64::MAX),
+        })),
+        ("alternating_two", mk(&|t, k| match t {
+            "BOOL" => Some((k % 2) as u64),
+            "REAL" => Some(2f32.to_bits() as u64),
+            "LREAL" => Some(2f64.to_bits()),
+            t if is_num(t) => Some(2),
+            _ => None,
+        })),
+    ]
 }
 
 /// Helper subcommands (child processes of this check); None = not mine.
@@ -830,6 +1027,8 @@ fn conversion_grid(ctx: &mut RunCtx) {
                         base_source: String::new(),
                         mutations: vec![],
                         trace: vec![CycleIn { writes: vec![], dt_ns: 1_000_000 }],
+                        site: None,
+                        inputs: vec![],
                         features: vec![format!("grid:{}_TO_{}", src.name(), dst.name())],
                         excluded: vec![],
                     };
@@ -844,6 +1043,130 @@ fn conversion_grid(ctx: &mut RunCtx) {
     }
 }
 
+/// Enumerated OPERATOR grid (after seeded change C01-d was missed): every integer type x
+/// {+ - * / MOD ** and the six comparisons, the function forms ADD SUB MUL DIV, unary minus,
+/// ABS} x operand pairs from {min, min+1, -1, 0, 1, max-1, max} (unsigned: {0, 1, 2, max-1,
+/// max}); REAL / LREAL x {+ - * / ** EXPT} x {-MAX, -1, 0, MIN_POSITIVE, 1, 2, MAX}. Every
+/// combination twice: operands as (synthesised) literals and operands written by the input
+/// trace into variables. One statement per program, judged by C01's oracle only. The shapes of
+/// the open findings are left out exactly: a negative integer exponent (F23).
+fn operator_grid(ctx: &mut RunCtx) {
+    if ctx.only_replay.is_some() {
+        return;
+    }
+    let d = dials();
+    let f23_open = d.is_open("F23-");
+    let mut idx = 0usize;
+    let mut emit = |ctx: &mut RunCtx, label: String, source: String, trace: XTrace| {
+        idx += 1;
+        if idx % ctx.nworkers.max(1) != ctx.worker {
+            return;
+        }
+        let case = Case {
+            prog_tape: empty_tape(),
+            trace_tape: empty_tape(),
+            ext_tape: empty_tape(),
+            mut_tape: empty_tape(),
+            print_bits: 0,
+            mode: "base".into(),
+            source,
+            base_source: String::new(),
+            mutations: vec![],
+            trace,
+            site: None,
+            inputs: vec![],
+            features: vec![label],
+            excluded: vec![],
+        };
+        let j = serde_json::to_value(&case).unwrap_or(serde_json::Value::Null);
+        ctx.enumerated("case", &j, |probe| {
+            probe.label("opgrid");
+            check_case(&case, probe)
+        });
+    };
+    let one_cycle = |writes: Vec<Write>| -> XTrace { vec![CycleIn { writes, dt_ns: 1_000_000 }] };
+    let var_write = |name: &str, ty: &str, bits: u64| Write::Var {
+        instance: "Main".into(),
+        var: name.into(),
+        value: Scalar { ty: ty.into(), bits },
+    };
+    const BIN: [&str; 12] = ["+", "-", "*", "/", "MOD", "**", "<", "<=", ">", ">=", "=", "<>"];
+    const FNS: [&str; 4] = ["ADD", "SUB", "MUL", "DIV"];
+    for t in ext::INTS {
+        let e = t.elem().unwrap();
+        let (lo, hi) = e.int_range();
+        let vals: Vec<i128> = if e.is_signed_int() { vec![lo, lo + 1, -1, 0, 1, hi - 1, hi] } else { vec![0, 1, 2, hi - 1, hi] };
+        let n = t.name();
+        for &a in &vals {
+            // unary
+            for (op, ok) in [("neg", e.is_signed_int()), ("ABS", true)] {
+                if !ok {
+                    continue;
+                }
+                for via_trace in [false, true] {
+                    let x = if via_trace { "a".to_string() } else { ext::int_lit(t, a) };
+                    let expr = if op == "neg" { format!("-({x})") } else { format!("ABS({x})") };
+                    let src = format!("PROGRAM Main\nVAR\n  a : {n};\n  r : {n};\nEND_VAR\n  r := {expr};\nEND_PROGRAM\n");
+                    let tr = one_cycle(if via_trace { vec![var_write("a", n, a as u64)] } else { vec![] });
+                    emit(ctx, format!("opgrid:{op}:{n}"), src, tr);
+                }
+            }
+            for &b in &vals {
+                for op in BIN.iter().chain(FNS.iter()) {
+                    if *op == "**" && b < 0 && f23_open {
+                        continue;
+                    }
+                    let cmp = matches!(*op, "<" | "<=" | ">" | ">=" | "=" | "<>");
+                    for via_trace in [false, true] {
+                        let (x, y) = if via_trace { ("a".to_string(), "b".to_string()) } else { (ext::int_lit(t, a), ext::int_lit(t, b)) };
+                        let expr = if FNS.contains(op) { format!("{op}({x}, {y})") } else { format!("{x} {op} {y}") };
+                        let rt = if cmp { "BOOL" } else { n };
+                        let src = format!("PROGRAM Main\nVAR\n  a : {n};\n  b : {n};\n  r : {rt};\nEND_VAR\n  r := {expr};\nEND_PROGRAM\n");
+                        let tr = one_cycle(if via_trace { vec![var_write("a", n, a as u64), var_write("b", n, b as u64)] } else { vec![] });
+                        emit(ctx, format!("opgrid:{op}:{n}"), src, tr);
+                    }
+                }
+            }
+        }
+    }
+    // ---- reals
+    let dummy = Program { types: vec![], pous: vec![], globals: vec![], instances: vec![] };
+    for t in [T::Real, T::LReal] {
+        let n = t.name();
+        let vals: Vec<(String, u64)> = if t == T::Real {
+            [-f32::MAX, -1.0, 0.0, f32::MIN_POSITIVE, 1.0, 2.0, f32::MAX]
+                .iter()
+                .map(|v| (crate::stgen::print::literal_text(&Val::real(*v), &dummy, true), v.to_bits() as u64))
+                .collect()
+        } else {
+            [-f64::MAX, -1.0, 0.0, f64::MIN_POSITIVE, 1.0, 2.0, f64::MAX]
+                .iter()
+                .map(|v| (crate::stgen::print::literal_text(&Val::lreal(*v), &dummy, true), v.to_bits()))
+                .collect()
+        };
+        for (la, ba) in &vals {
+            for (lb, bb) in &vals {
+                for op in ["+", "-", "*", "/", "**", "EXPT", "<", "="] {
+                    for via_trace in [false, true] {
+                        let (x, y) = if via_trace { ("a".to_string(), "b".to_string()) } else { (la.clone(), lb.clone()) };
+                        let expr = if op == "EXPT" { format!("EXPT({x}, {y})") } else { format!("{x} {op} {y}") };
+                        let rt = if matches!(op, "<" | "=") { "BOOL" } else { n };
+                        let src = format!("PROGRAM Main\nVAR\n  a : {n};\n  b : {n};\n  r : {rt};\nEND_VAR\n  r := {expr};\nEND_PROGRAM\n");
+                        let tr = one_cycle(if via_trace { vec![var_write("a", n, *ba), var_write("b", n, *bb)] } else { vec![] });
+                        emit(ctx, format!("opgrid:{op}:{n}"), src, tr);
+                    }
+                }
+            }
+            // EXPT with integer exponents at the extremes
+            for (et, ev) in [(T::DInt, i32::MIN as i128), (T::DInt, -1), (T::DInt, 0), (T::DInt, 2), (T::DInt, i32::MAX as i128), (T::LInt, i64::MIN as i128), (T::LInt, i64::MAX as i128), (T::ULInt, u64::MAX as i128)] {
+                let src = format!("PROGRAM Main\nVAR\n  a : {n};\n  b : {};\n  r : {n};\nEND_VAR\n  r := EXPT(a, b);\nEND_PROGRAM\n", et.name());
+                let tr = one_cycle(vec![var_write("a", n, *ba), var_write("b", et.name(), ev as u64)]);
+                emit(ctx, format!("opgrid:EXPT_int:{n}"), src, tr);
+            }
+        }
+    }
+}
+
 fn run(ctx: &mut RunCtx) {
     let open: Vec<String> = ctx
         .findings
@@ -853,12 +1176,18 @@ fn run(ctx: &mut RunCtx) {
         .collect();
     let _ = DIALS.set(Dials { open });
     let tier = ctx.tier;
+    // C01_ONLY=grid|base|mutated: run one part only (timing / debugging aid, not used by ./check)
+    let only = std::env::var("C01_ONLY").unwrap_or_default();
+    let on = |what: &str| only.is_empty() || only == what;
     // replay files carry search = "case"
     ctx.search("case", case_strategy("base"), 0, check_case);
     f6_probe(ctx);
-    conversion_grid(ctx);
-    ctx.search("base", case_strategy("base"), tier.pick(4_000, 100_000), check_case);
-    ctx.search("mutated", case_strategy("mutated"), tier.pick(8_000, 200_000), check_case);
+    if on("grid") {
+        conversion_grid(ctx);
+        operator_grid(ctx);
+    }
+    ctx.search("base", case_strategy("base"), if on("base") { tier.pick(4_000, 100_000) } else { 0 }, check_case);
+    ctx.search("mutated", case_strategy("mutated"), if on("mutated") { tier.pick(6_000, 200_000) } else { 0 }, check_case);
 
     let total = BASE_TOTAL.load(Ordering::Relaxed);
     let rejected = REJECTED_BASE.load(Ordering::Relaxed);
